@@ -437,7 +437,7 @@ func (fv *FV) storeField(st *State, base Term, name string, v Term, y *ast.Selec
 							vv, _ := fv.coerce(v, Term{Sort: fv.sortOf(sty.Field(i).Type())})
 							fs = append(fs, vv.S)
 						} else {
-							fs = append(fs, fmt.Sprintf("(%s_%s %s)", s, sty.Field(i).Name(), cur.S))
+							fs = append(fs, fmt.Sprintf("(%s_%s %s)", s, symName(sty.Field(i).Name()), cur.S))
 						}
 					}
 					fv.setVar(st, obj, Term{S: "(mk-" + s + " " + strings.Join(fs, " ") + ")", Sort: s, T: cur.T})
@@ -492,7 +492,7 @@ func (fv *FV) storeDeref(st *State, p, v Term, y *ast.StarExpr) {
 			s := fv.sortOf(pt.Elem())
 			for i := 0; i < sty.NumFields(); i++ {
 				key, _ := fv.fieldComp(named, sty.Field(i))
-				fv.heapSet(st, key, sto(fv.heapGet(st, key), p.S, fmt.Sprintf("(%s_%s %s)", s, sty.Field(i).Name(), v.S)))
+				fv.heapSet(st, key, sto(fv.heapGet(st, key), p.S, fmt.Sprintf("(%s_%s %s)", s, symName(sty.Field(i).Name()), v.S)))
 			}
 			return
 		}
@@ -543,7 +543,9 @@ func (fv *FV) execReturn(st *State, x *ast.ReturnStmt) {
 		results = fv.evalTuple(st, x.Results[0], nres)
 	default:
 		for i, r := range x.Results {
+			fv.inReturn++
 			v := fv.evalExpr(st, r)
+			fv.inReturn--
 			v = fv.asParam(v, sig.Results().At(i).Type())
 			v.T = sig.Results().At(i).Type()
 			results = append(results, v)
